@@ -132,6 +132,7 @@ def lifetime_orbit(cfgid):
     models = ["FixedLifetime", "NormalLifetime", "WeibullLifetime", "LogNormalLifetime", "FoldedNormalLifetime", "StepLifetime"]
     model = models[cfgid % len(models)]
     tables = []
+    later = []      # tables read AFTER the caller changed its parameter arrays in place (history: set_prms, edit, read)
     for variant in range(6):
         try:
             if model in lifetime_closed.MODELS:
@@ -139,12 +140,24 @@ def lifetime_orbit(cfgid):
                 first, second = lifetime_closed.params(model, S, variant)
                 a1, a2 = lifetime_closed.build_arrays(S, first, second, variant)
                 lm = cls(dims=S.dims, time_letter="t", **{names[0]: a1, names[1]: a2})
+                b1, b2 = lifetime_closed.build_arrays(S, first, second, variant)
+                lm2 = cls(dims=S.dims, time_letter="t")
+                lm2.set_prms(**{names[0]: b1, names[1]: b2})
+                for b in (b1, b2):
+                    if hasattr(b, "values"):
+                        b.values[...] = b.values * 1.5
+                later.append((variant, np.array(lm2.sf)))
             else:
                 S.cfg["family"] = "fixed" if model == "FixedLifetime" else "step"
                 lm, _ = S.lifetime_model(variant, via_set_prms=bool(variant % 2))
             tables.append((np.array(lm.sf), np.array(lm.pdf)))
         except Exception as e:
             problems.append(f"{{C04}} [lifetime/{model}] parameter storage order variant {variant}: raised {type(e).__name__}: {str(e)[:120]}")
+    for variant, sf in later[1:]:
+        if not np.allclose(sf, later[0][1], rtol=0, atol=1e-12):
+            problems.append(f"{{C04}} [lifetime/{model}/{config['prmkind']}] after the caller edited its parameter arrays in place, the survival "
+                            f"table depends on the storage order the parameters were handed over in (variant {variant} vs {later[0][0]})")
+            break
     for k, (sf, pdf) in enumerate(tables[1:], start=1):
         if not (np.allclose(sf, tables[0][0], rtol=0, atol=1e-12) and np.allclose(pdf, tables[0][1], rtol=0, atol=1e-12)):
             problems.append(f"{{C04}} [lifetime/{model}/{config['prmkind']}] survival table depends on the storage order of the parameter "
@@ -216,9 +229,60 @@ def tables_orbit(args):
     return problems
 
 
+def shared_labels_orbit(case):
+    """Two dimensions carrying the SAME item labels (a time and a cohort dimension with the same years, typed or untyped):
+    whatever a key means (or whether it is refused as ambiguous) must not depend on the storage order of the array."""
+    from .universe import Dimension, DimensionSet
+    typed, n = case
+    years = list(range(2000, 2000 + n))
+    mk = (lambda v: v) if typed else (lambda v: str(v))
+    t = Dimension(name="Time", letter="t", items=[mk(y) for y in years], dtype=int if typed else None)
+    c = Dimension(name="Cohort", letter="c", items=[mk(y) for y in years], dtype=int if typed else None)
+    r = Dimension(name="Region", letter="r", items=["EUR", "USA", "CHN"], dtype=str if typed else None)
+    D = {"t": t, "c": c, "r": r}
+    y = mk(years[n // 2])
+    keys = [("bare item", y), ("item tuple", (y, "EUR")), ("dict t", {"t": y}), ("dict c", {"c": y}), ("item tuple r first", ("USA", y)),
+            ("two equal items", (y, y)), ("dict both", {"t": y, "c": mk(years[0])})]
+    problems = []
+
+    def labelled(arr):
+        out = {}
+        for idx in np.ndindex(*arr.values.shape):
+            out[tuple(sorted((d.letter, d.items[i]) for d, i in zip(arr.dims, idx)))] = float(arr.values[idx])
+        return out
+
+    for what, key in keys:
+        for mode in ("read", "write"):
+            ref = None
+            for order in itertools.permutations("tcr"):
+                dims = DimensionSet(dim_list=[D[l] for l in order])
+                vals = np.zeros(tuple(d.len for d in dims))
+                for idx in np.ndindex(*vals.shape):
+                    lab = {l: i for l, i in zip(order, idx)}
+                    vals[idx] = 1.0 + lab["t"] + 100 * lab["c"] + 10000 * lab["r"]
+                x = FlodymArray(dims=dims, values=vals)
+                try:
+                    if mode == "read":
+                        res = labelled(x[key])
+                    else:
+                        x[key] = -1.0
+                        res = labelled(x)
+                except Exception:
+                    res = "error"
+                if ref is None:
+                    ref = (order, res)
+                elif res != ref[1]:
+                    problems.append(f"{{C04,C06}} [shared item labels, {'typed' if typed else 'untyped'} dims, {n} years] {mode} with {what} {key!r}: "
+                                    f"storage order {''.join(order)} gives {'an error' if res == 'error' else 'a result'} that differs from "
+                                    f"storage order {''.join(ref[0])} ({'error' if ref[1] == 'error' else 'result'})")
+                    break
+    return problems[:4]
+
+
 def _call_named(args):
     name, a = args
-    return {"orbits": run_orbits, "lifetime": lifetime_orbit, "stack": stack_split_orbit, "tables": tables_orbit}[name](a)
+    return {"orbits": run_orbits, "lifetime": lifetime_orbit, "stack": stack_split_orbit, "tables": tables_orbit,
+            "shared": shared_labels_orbit}[name](a)
 
 
 def check_C04(tier, seed):
@@ -253,6 +317,7 @@ def check_C04(tier, seed):
     jobs = [("orbits", (k[0], vs)) for k, vs in groups.items() if len(vs) > 1]
     jobs += [("lifetime", i) for i in range(12 if quick else 36)]
     jobs += [("stack", i) for i in range(12)]
+    jobs += [("shared", (typed, n)) for typed in (True, False) for n in (3, 12)]
     jobs += [("tables", (s, w, st)) for s in range(4) for w in ("", "a", "b", "c") for st in (1, 2)]
     bad = core.replay_parallel(_call_named, jobs)
     out.replayed += nvec
@@ -272,6 +337,8 @@ def check_C04(tier, seed):
         "within an orbit the implementation's results are compared with each other by label (float64, C and Fortran layout); conformance of each "
         "vector to the label-keyed contract is checked by C01 / C05 / C06 / C07 / C11",
         "the requested order of sum_to / cast_to / the target's order are part of the call and are kept fixed within an orbit",
+        "dedicated orbit: a time and a cohort dimension with the SAME item labels (typed int / untyped, 3 and 12 items): bare items, item tuples and "
+        "dict keys read and written for all 6 storage orders - the meaning of a key (or its refusal as ambiguous) may not depend on the order",
         "dedicated orbits: lifetime parameters in all 6 storage orders of (t, r, s) for six lifetime models; split / stack for all orders of a "
         "3-dimensional array with equal lengths; to_df / from_df for all orders of 2-3 dimensional arrays",
     ]
